@@ -8,9 +8,27 @@ PROPS = {
   "stages": [{"name": "c01-search", "kind": "search"}],
   "explanation": "",
  },
+ "C02": {
+  "level": "other",
+  "lean_module": None,
+  "stages": [{"name": "c02-search", "kind": "search"}],
+  "explanation": "",
+ },
+ "C03": {
+  "level": "other",
+  "lean_module": None,
+  "stages": [{"name": "c03-search", "kind": "search"}],
+  "explanation": "",
+ },
+ "C06": {
+  "level": "other",
+  "lean_module": None,
+  "stages": [{"name": "c06-search", "kind": "search"}],
+  "explanation": "",
+ },
  "C14": {
   "level": "proof",
-  "lean_module": None,
+  "lean_module": "ClipVerif.Props.C14",
   "stages": [{"name": "c14-search", "kind": "search"}],
   "explanation": "",
  },
